@@ -411,6 +411,11 @@ type cacheProbe struct {
 // remembers per spelling in the shared per-type cache is only touched the first time a spelling is seen.
 var freeIter int64
 
+// execSeq numbers the executions of this process. Types that must be new to go-mc's per-type cache are named after
+// it, so that "all threads meet in the cache-miss path" does not depend on the harness being able to empty that cache
+// (it can only reset caches held in a sync.Map; a cache kept in a plain map under a mutex survives every execution).
+var execSeq int64
+
 // spelling returns "identifiervalue" with the letters selected by the bits of k in upper case; a
 // decoder matches such a key to field D only through its case-insensitive fallback.
 func spelling(k int64) string {
@@ -614,6 +619,11 @@ func explore(bound int, perScenario time.Duration, shardIdx, shardCnt int) []scS
 	for _, sc := range scenarios(rep.Thorough()) {
 		sc := sc
 		st := scStat{Scenario: sc.Name, Bound: -1}
+		// One unjudged warm-up execution (default schedule) before the walk: whatever process-global state of go-mc the
+		// harness cannot reset between executions (a per-type cache in a plain map, lazily built tables) is then the
+		// same at the start of every explored execution, so the number of scheduling points of a schedule does not
+		// depend on which executions ran before it (the engine treats such a dependence as tape divergence).
+		runOne(sc, engine.NewReplayChooser(nil))
 		deadline := time.Now().Add(perScenario)
 		scBound := bound
 		if lim := sc.QuickBound; !rep.Thorough() && lim > 0 && lim < scBound {
@@ -688,6 +698,7 @@ type SchedCase struct {
 // runOne executes one schedule of sc given by the chooser and returns (class, detail, observation).
 func runOne(sc Scenario, c *engine.Chooser) (class, detail, obs string, x *Exec, out sched.Outcome) {
 	x = &Exec{}
+	atomic.AddInt64(&execSeq, 1)
 	resetGlobals()
 	out = sched.Run(dec{c}, sc.Horizon, func() { sc.Body(x) })
 	pre := "sched/" + sc.Name + "/"
